@@ -82,7 +82,7 @@ func c07TierLayout() c07Layout {
 }
 
 func (l c07Layout) total() int {
-	return len(c07Starts)*c07SeqCount(l.maxLen) + l.walks + c07CollisionCases()
+	return len(c07Starts)*c07SeqCount(l.maxLen) + l.walks + c07CollisionCases() + c07MultiCases()
 }
 
 func (l c07Layout) decode(idx int) c07Case {
@@ -94,7 +94,11 @@ func (l c07Layout) decode(idx int) c07Case {
 	if idx < l.walks {
 		return c07Case{kind: "walk", sub: idx}
 	}
-	return c07Case{kind: "coll", sub: idx - l.walks}
+	idx -= l.walks
+	if idx < c07CollisionCases() {
+		return c07Case{kind: "coll", sub: idx}
+	}
+	return c07Case{kind: "multi", sub: idx - c07CollisionCases()}
 }
 
 // c07Viable is a model-only dry run: it reports false only if some event of the sequence cannot be
@@ -174,6 +178,10 @@ func TestVerifC07(t *testing.T) {
 			rec.Mark(fmt.Sprintf("c07 case %d collision %d", idx, c.sub), false)
 			synctest.Test(t, func(t *testing.T) { c07RunCollision(t, rec, idx, c.sub) })
 			rec.Count("cases_active_peer", 1)
+		case "multi":
+			rec.Mark(fmt.Sprintf("c07 case %d multi-session %d", idx, c.sub), false)
+			synctest.Test(t, func(t *testing.T) { c07RunMulti(t, rec, idx, c.sub) })
+			rec.Count("cases_multi_session", 1)
 		}
 	})
 }
